@@ -268,6 +268,27 @@ def run(res, proof):
             finally:
                 os.unlink(p)
             res.count('file_vs_string')
+        # a malformed statement AFTER well-formed ones: rejected through the file entry point as through the string one
+        good = [c for c in cases if c[0].startswith('stmt') and c[2] not in (None, 'unknown')]
+        bad = [c for c in cases if c[0].startswith('negative')]
+        for k in range(min(len(bad), 60 if quick else 600)):
+            g1, g2, b = rng.choice(good), rng.choice(good), bad[k]
+            txt = g1[1] + ('' if g1[1].endswith('\n') else '\n') + g2[1] + ('' if g2[1].endswith('\n') else '\n') + b[1]
+            res.evaluations += 1
+            p = os.path.join(tmpdir, 'neg.pil')
+            with open(p, 'w', newline='') as f:
+                f.write(txt)
+            outcomes = []
+            for name, call in (('string', lambda: parse_pil_string(txt)), ('file', lambda: parse_pil_file(p))):
+                try:
+                    call(); outcomes.append((name, 'accepted'))
+                except Exception as e:
+                    outcomes.append((name, type(e).__name__)); e = None
+            os.unlink(p)
+            if any(o != 'ParseException' for _, o in outcomes):
+                res.violation('malformed-later-statement-accepted:' + '/'.join('%s=%s' % o for o in outcomes), {'text': txt},
+                              ', '.join('%s: %s' % o for o in outcomes), 'ParseException from both entry points')
+            res.count('negative_documents_file_and_string')
     finally:
         os.rmdir(tmpdir)
     # ---- correspondence with the Lean model of pyparsing over the regenerated grammar
